@@ -239,6 +239,12 @@ class Runner:
             new = nod.Group.basic_new(s) if n[0] else nod.Synth.basic_new(op.get('def', 'default'), s)
         elif name in ('set', 'setn', 'map', 'mapa', 'mapn', 'mapan', 'fill'):
             getattr(o, name)(*self.args(op))
+        elif name == 'bad':         # an argument the OSC encoder refuses
+            if n[0] == 0:
+                o.set('amp', 2 ** 40)
+            else:
+                import pathlib
+                o.read(pathlib.Path('/tmp/x.wav'))
         elif name == 'run':
             o.run(bool(n[0]))
         elif name == 'release':
@@ -524,13 +530,13 @@ def main():
     out = []
     for ci, case in enumerate(inp['cases']):
         c = case['cfg']
-        key = (c['logins'], c['nbuf'], c['ncb'], c['nab'], c['initnode'])
+        key = (c['logins'], c['nbuf'], c['ncb'], c['nab'], c['initnode'], c.get('io', 4))
         s = servers.get(key)
         if s is None:
             o = srv.ServerOptions()
             o.max_logins = c['logins']
             o.buffers, o.control_buses, o.audio_buses = c['nbuf'], c['ncb'], c['nab']
-            o.input_channels = o.output_channels = 2
+            o.input_channels = o.output_channels = c.get('io', 4) // 2      # io = 0: the audio-bus space starts at index 0
             o.initial_node_id = c['initnode']
             s = srv.Server('c17_%d' % len(servers), nad.NetAddr('127.0.0.1', 57400 + len(servers)), o)
             servers[key] = s
@@ -538,7 +544,7 @@ def main():
         s._node_allocator._temp = c.get('nodestart', c['initnode'])
         srv.Server.default = s
         wire.drain()
-        cfg = dict(client=c['client'], logins=c['logins'], nbuf=c['nbuf'], ncb=c['ncb'], nab=c['nab'], io=4,
+        cfg = dict(client=c['client'], logins=c['logins'], nbuf=c['nbuf'], ncb=c['ncb'], nab=c['nab'], io=c.get('io', 4),
                    initnode=c['initnode'], rt=1 if mode == 'rt' else 0, latency=int(round(s.latency * 1000)), defgroup=s.default_group.node_id,
                    groups=[g.node_id for g in s._default_groups], port=s.addr.port)
         r = Runner(mods, wire, s, cfg)
